@@ -185,6 +185,13 @@ func captureCorpus(thorough bool) []wireBody {
 			}
 		}
 	}
+	// a Connect stream whose end-of-stream message spells one metadata key in three ways
+	{
+		body := append(refwire.Envelope(0, codecMarshal(false, &BV{Value: []byte("ref")})),
+			refwire.Envelope(2, []byte(`{"metadata":{"x-trail":["1"],"X-trail":["2"],"x-Trail":["3"]}}`))...)
+		out = append(out, wireBody{Name: "es-key-spellings", Proto: PConnect, Kind: KServer, Status: 200,
+			Header: http.Header{"Content-Type": {"application/connect+proto"}}, Body: body})
+	}
 	// gRPC responses also as a peer that announces its trailers sends them (net/http then lists the
 	// announced names in Response.Trailer, with nil values, before and unless the trailers arrive)
 	for _, w := range append([]wireBody(nil), out...) {
